@@ -59,4 +59,18 @@ CoverOK(e, mn, mx) ==
     /\ e[Len(e)] > mx                             \* end strictly above the maximum ...
     /\ e[Len(e) - 1] <= mx                        \* ... by at most one bin width
 EqualWidth(e) == \A x \in 1..(Len(e) - 2) : e[x + 1] - e[x] = e[x + 2] - e[x + 1]
+
+(* Documented bin counts of the data-size strategies (strategies.rs:270-335), in exact integer form:  *)
+(*   Sqrt     k = round(sqrt n)        <=>  (2k-1)^2 <= 4n  < (2k+1)^2                                  *)
+(*   Rice     k = round(2 n^(1/3))     <=>  (2k-1)^3 <= 64n < (2k+1)^3                                  *)
+(*   Sturges  k = round(log2 n) + 1    <=>  2^(2(k-1)-1) <= n^2 < 2^(2(k-1)+1)                          *)
+(* (none of the three has ties for integer n).  For integer data the width is the truncating quotient  *)
+(* (max - min) / k and the bins built are min + i * width up to the first edge above max.              *)
+RECURSIVE P2(_)
+P2(k) == IF k <= 0 THEN 1 ELSE 2 * P2(k - 1)
+SqrtK(n)    == CHOOSE k \in 0..(n + 1) : (2 * k - 1) * (2 * k - 1) <= 4 * n /\ 4 * n < (2 * k + 1) * (2 * k + 1)
+RiceK(n)    == CHOOSE k \in 0..(n + 2) : (2 * k - 1) * (2 * k - 1) * (2 * k - 1) <= 64 * n /\ 64 * n < (2 * k + 1) * (2 * k + 1) * (2 * k + 1)
+SturgesK(n) == 1 + (CHOOSE j \in 0..31 : (IF j = 0 THEN n * n < 2 ELSE P2(2 * j - 1) <= n * n /\ n * n < P2(2 * j + 1)))
+StrategyK(strat, n) == CASE strat = "sqrt" -> SqrtK(n) [] strat = "rice" -> RiceK(n) [] strat = "sturges" -> SturgesK(n) [] OTHER -> 0
+IntEdges(mn, mx, w) == [x \in 1..((mx - mn) \div w + 2) |-> mn + (x - 1) * w]
 =============================================================================
